@@ -5,6 +5,7 @@ import os
 SERVES = ['C01', 'C02', 'C03', 'C05', 'C06', 'C07', 'C09', 'C10', 'C11', 'C12', 'C13', 'C14', 'C15', 'C16', 'C17', 'C18', 'C19', 'C20']
 VERUS_FLAGS = ['--no-trait-conflicts']
 W = 'Tracked(w): Tracked<&mut World>'
+REJ = '(err_kind(err_of(r)) == ErrorKind::InvalidInput)'   # the error is a rejected name (whatever the validation rejects)
 TW = 'Tracked(w)'
 
 
@@ -55,7 +56,7 @@ def level_get_ensures(lookup, configured):
          'r.is_ok() && r.unwrap().is_some() ==> %s == Some(r.unwrap().unwrap().ino()) && !r.unwrap().unwrap().can_write() && r.unwrap().unwrap().offset() == 0' % lookup),
         ('C13 C11 C05 C18:a-miss-means-this-level-holds-no-copy', 'r.is_ok() && r.unwrap().is_none() ==> %s.is_none()' % lookup),
         ('C18 C05:error-is-an-invalid-name-or-a-real-fault',
-         'r.is_err() ==> !first_byte_ok(str_bytes(key.name)) || str_bytes(key.name).contains(0x2fu8) || final(w).hard_faults > old(w).hard_faults'),
+         'r.is_err() ==> err_kind(err_of(r)) == ErrorKind::InvalidInput || final(w).hard_faults > old(w).hard_faults'),
         ('C06 C20:at-most-two-opens-per-level', 'final(w).steps <= old(w).steps + 6 && final(w).opens <= old(w).opens + 2'),
     ]
 
@@ -72,7 +73,7 @@ def level_touch_ensures(lookup):
          'r == Ok::<bool, Error>(true) ==> %s.is_some() && final(w).inodes[%s.unwrap()].atime >= final(w).inodes[%s.unwrap()].mtime' % (lookup, lookup, lookup)),
         ('C13 C05 C18:false-means-this-level-holds-no-copy', 'r == Ok::<bool, Error>(false) ==> %s.is_none()' % lookup),
         ('C18 C05:error-is-an-invalid-name-or-a-real-fault',
-         'r.is_err() ==> !first_byte_ok(str_bytes(key.name)) || str_bytes(key.name).contains(0x2fu8) || final(w).hard_faults > old(w).hard_faults'),
+         'r.is_err() ==> err_kind(err_of(r)) == ErrorKind::InvalidInput || final(w).hard_faults > old(w).hard_faults'),
         ('C06 C20:at-most-two-calls-per-level', 'final(w).steps <= old(w).steps + 2 && final(w).opens == old(w).opens'),
     ]
 
@@ -207,7 +208,7 @@ impl ReadOnlyCache {
             ('C18 C05 C14:error-is-an-invalid-name-a-real-fault-or-a-rejected-copy',
              'r.is_err() ==> %s || final(w).hard_faults > old(w).hard_faults || (%s.is_some() && exists|i: int, j: int| 0 <= i < j < %s.len() '
              '&& (#[trigger] %s[i]).lookup(old(w).files, key).is_some() && (#[trigger] %s[j]).lookup(old(w).files, key).is_some() '
-             '&& !checker_accepts(%s.unwrap(), %s[i].lookup(old(w).files, key).unwrap(), %s[j].lookup(old(w).files, key).unwrap()))' % (BAD, checker, stack, stack, stack, checker, stack, stack)),
+             '&& !checker_accepts(%s.unwrap(), %s[i].lookup(old(w).files, key).unwrap(), %s[j].lookup(old(w).files, key).unwrap()))' % (REJ, checker, stack, stack, stack, checker, stack, stack)),
             ('C06 C20:at-most-two-opens-and-seven-calls-per-level', 'final(w).steps <= old(w).steps + 7 * %s.len() && final(w).opens <= old(w).opens + 2 * %s.len()' % (stack, stack)),
         ]
 
@@ -266,7 +267,7 @@ impl ReadOnlyCache {
              '&& forall|j: int| 0 <= j < idx ==> (#[trigger] %s[j]).lookup(old(w).files, key).is_none()' % (stack, stack, stack, stack, stack)),
             ('C13 C05 C18:false-means-no-level-holds-a-copy',
              'r == Ok::<bool, Error>(false) ==> forall|j: int| 0 <= j < %s.len() ==> (#[trigger] %s[j]).lookup(old(w).files, key).is_none()' % (stack, stack)),
-            ('C18 C05:error-is-an-invalid-name-or-a-real-fault', 'r.is_err() ==> %s || final(w).hard_faults > old(w).hard_faults' % BAD),
+            ('C18 C05:error-is-an-invalid-name-or-a-real-fault', 'r.is_err() ==> %s || final(w).hard_faults > old(w).hard_faults' % REJ),
             ('C06 C20:at-most-two-calls-per-level', 'final(w).steps <= old(w).steps + 2 * %s.len() && final(w).opens == old(w).opens' % stack),
         ]
 
@@ -368,7 +369,7 @@ def weave_stack(u, u4):
              '%s ==> r.is_err() && err_kind(err_of(r)) == ErrorKind::InvalidInput && final(w).same_fs(*old(w)) && final(w).counter == old(w).counter && final(w).published == old(w).published' % BAD),
             ('C11 C18:success-consumes-the-source', 'r.is_ok() ==> old(w).files.contains_key(pv(value)) && !final(w).files.contains_key(pv(value))'),
             ('C15 C16 C17 C12:everything-that-changes-is-inside-this-cache', 'self.wrote(*old(w), *final(w), key, pv(value))'),
-            ('C18 C05:error-is-explained', 'r.is_err() ==> %s || final(w).hard_faults > old(w).hard_faults || !final(w).files.contains_key(pv(value))' % BAD),
+            ('C18 C05:error-is-explained', 'r.is_err() ==> %s || final(w).hard_faults > old(w).hard_faults || !final(w).files.contains_key(pv(value))' % REJ),
         ]
     for op in ('set', 'put'):
         m = t.sub(['fn ' + op])
@@ -561,7 +562,7 @@ pub open spec fn read_copies_accepted(rs: ReadOnlyCache, links: Map<PathV, Inode
                  '&& final(w).inodes[%s.lookup(old(w).files, key).unwrap()].atime >= final(w).inodes[%s.lookup(old(w).files, key).unwrap()].mtime' % (wopt, ws, ws, ws)),
                 ('C13 C05 C18:false-means-no-copy-anywhere',
                  'r == Ok::<bool, Error>(false) ==> no_read_copy(%s, old(w).files, key) && (%s.is_some() ==> %s.lookup(old(w).files, key).is_none())' % (rs, wopt, ws)),
-                ('C18 C05:error-is-an-invalid-name-or-a-real-fault', 'r.is_err() ==> %s || final(w).hard_faults > old(w).hard_faults' % BAD),
+                ('C18 C05:error-is-an-invalid-name-or-a-real-fault', 'r.is_err() ==> %s || final(w).hard_faults > old(w).hard_faults' % REJ),
             ])
 
     ts = u.under_contract(imp.sub(['fn touch']), API_PROPS)
@@ -664,7 +665,7 @@ pub open spec fn read_copies_accepted(rs: ReadOnlyCache, links: Map<PathV, Inode
             ('C15 C16 C17 C12:everything-that-changes-is-inside-the-write-cache',
              '%s.is_some() ==> %s.wrote(*old(w), *final(w), key, pv(value))' % (ws.replace('.unwrap()', ''), ws)),
             ('C18 C05:error-is-explained',
-             'r.is_err() ==> %s.is_none() || %s || final(w).hard_faults > old(w).hard_faults || !final(w).files.contains_key(pv(value))' % (ws.replace('.unwrap()', ''), BADK)),
+             'r.is_err() ==> %s.is_none() || %s || final(w).hard_faults > old(w).hard_faults || !final(w).files.contains_key(pv(value))' % (ws.replace('.unwrap()', ''), REJ)),
         ]
 
     IMPL_REQ = [('', 'old(w).inv() && (self.writer().is_some() ==> %s.level_wf() && %s.rw(old(w).cfg()))' % (WS, WS)),
@@ -695,7 +696,7 @@ pub open spec fn read_copies_accepted(rs: ReadOnlyCache, links: Map<PathV, Inode
                 ('C13 C11:success-means-a-publication-happened' + ('' if op.startswith('set') else '-unless-the-key-was-already-bound'),
                  'r.is_ok() ==> final(w).published > old(w).published' + ('' if op.startswith('set') else ' || %s.lookup(old(w).files, key).is_some()' % TW_)),
                 ('C18 C05:error-is-explained',
-                 'r.is_err() ==> %s.writer().is_none() || %s || final(w).hard_faults > old(w).hard_faults || !final(w).files.contains_key(%s) || !old(w).files.contains_key(%s)' % (this, BADK, VAL, VAL)),
+                 'r.is_err() ==> %s.writer().is_none() || %s || final(w).hard_faults > old(w).hard_faults || !final(w).files.contains_key(%s) || !old(w).files.contains_key(%s)' % (this, REJ, VAL, VAL)),
             ]
             return dict(requires=req, ensures=ens)
         sh = u.under_contract(imp.sub(['fn ' + op]), API_PROPS)
